@@ -19,6 +19,8 @@ from vlib import par, realproc as rp
 from vlib.runner import Result, violation
 
 USERS = [None, "www-data", 33, "nobody", 65534, 4242]        # 4242: a numeric uid without a passwd entry
+# accounts whose uid differs from their primary gid (a name must resolve to the uid, not the gid)
+USERS += [u for u in ("games", "man") if any(p_.pw_name == u and p_.pw_uid != p_.pw_gid for p_ in pwd.getpwall())]
 GROUPS = [None, "www-data", 33, "nogroup", 0, "daemon"]
 
 
@@ -81,6 +83,11 @@ def cred_cell(cell):
     os.close(r)
     os.waitpid(pid, 0)
     cuid, cgid, ruid, rgid, groups, err, calls = eval(data.decode())
+    # what the configuration means, worked out here and not taken from gunicorn's own Config
+    want_uid, want_gid = uid_of(user), gid_of(group)
+    if (cuid, cgid) != (want_uid, want_gid):
+        return ("configured-identity-misread", "user=%r group=%r: Config says uid=%r gid=%r, the system's account database says %r / %r" % (
+            user, group, cuid, cgid, want_uid, want_gid))
     if err:
         return ("set-owner-raised", "user=%r group=%r initgroups=%s start=%s: %s" % (user, group, initgroups, start, err))
     master_groups = tuple(sorted(os.getgroups()))
